@@ -175,6 +175,8 @@ type env struct {
 	txInvSeen  atomic.Int64
 	notes      []string
 	api        *apiState // peer-state API family (api.go); nil otherwise
+	rsv        *resolver // Config.NameResolver of the scenario (API family / host names); nil otherwise
+	rej        *rejState // rebroadcast-answered family (rebroad.go); nil otherwise
 }
 
 func (e *env) note(f string, a ...any) {
@@ -249,6 +251,9 @@ func (sp *simPeer) mutate(_ *netsim.Peer, req wire.Message, honest []wire.Messag
 }
 
 func (sp *simPeer) onMsg(_ *netsim.Peer, m wire.Message) bool {
+	if rs := sp.e.rej; rs != nil {
+		return rs.onMsg(sp, m)
+	}
 	inv, ok := m.(*wire.MsgInv)
 	if !ok {
 		return false
@@ -911,6 +916,11 @@ func Scenario(seed int64, k int, res *l2.Result) {
 	Run(PlanFromSeed(seed, k), res)
 }
 
+// ExtraScenario is scenario j of the third list (extraplan.go).
+func ExtraScenario(seed int64, j int, res *l2.Result) {
+	Run(ExtraPlanFromSeed(seed, j), res)
+}
+
 // APIScenario is scenario j of the peer-state API family (apiplan.go).
 func APIScenario(seed int64, j int, res *l2.Result) {
 	Run(APIPlanFromSeed(seed, j), res)
@@ -936,6 +946,14 @@ func Run(p Plan, res *l2.Result) {
 		if p.API != nil {
 			res.Fingerprint += fmt.Sprintf("|api=%s callers=%s", p.API.Mode(), bucket(p.API.Callers))
 			e.reportAPI(reached && oc.stop != "not-called")
+		}
+		if p.Names != nil {
+			res.Fingerprint += "|names=" + p.Names.Shape()
+			e.reportNames(reached && oc.stop != "not-called")
+		}
+		if p.Rej != nil {
+			res.Fingerprint += fmt.Sprintf("|rebroadcast=%s answer=%s", p.Rej.Expect(), answerBucket(p.Rej.AnswerMs))
+			e.reportRebroadAns(reached && oc.stop != "not-called")
 		}
 		res.Nontrivial = reached && oc.stop != "not-called"
 		res.Count("state/"+p.State, 1)
@@ -985,12 +1003,31 @@ func Run(p Plan, res *l2.Result) {
 	e.addPeers()
 	copts := l2.ClientOpts{PersistToDisk: p.Persist, BlockCache: p.BlockCache}
 	var connect []string // nil = every registered peer
+	if p.API != nil || p.Names != nil {
+		e.rsv = newResolver(e)
+		copts.NameResolver = e.rsv.lookup
+		for _, sp := range e.peers {
+			connect = append(connect, sp.Addr)
+		}
+	}
 	if p.API != nil {
 		connect = e.setupAPI()
-		copts.NameResolver = e.api.res.lookup
 		// Whatever way the scenario ends: no lookup stays held, no caller
 		// keeps running.
 		defer func() { e.api.res.open(); e.api.endCallers() }()
+	}
+	if p.Names != nil {
+		// The reachable peers as before (IP literals) plus the host names.
+		connect = e.setupNames(connect)
+	}
+	if p.Rej != nil {
+		e.rej = newRejState(e)
+		copts.BroadcastTimeout = time.Duration(p.Rej.BroadcastTimeoutMs) * time.Millisecond
+		// An exported knob of the client, set before the client exists (this
+		// process runs one scenario).
+		neutrino.QueryRejectTimeout = time.Duration(p.Rej.RejectTimeoutMs) * time.Millisecond
+		// Whatever way the scenario ends: no peer reaction stays held.
+		defer func() { e.rej.open(); e.rej.wg.Wait() }()
 	}
 	neutrino.VerifSetPointHook(e.hook.fn)
 	defer neutrino.VerifSetPointHook(nil)
@@ -1000,6 +1037,9 @@ func Run(p Plan, res *l2.Result) {
 		defer e.mu.Unlock()
 		m := map[string]any{"plan": p, "calls": e.calls, "notes": append([]string(nil), e.notes...),
 			"event_log_tail": w.Log.Tail(40)}
+		if ns := e.rsv.nameStats(); len(ns) > 0 {
+			m["permanent_peer_name_lookups"] = ns
+		}
 		for k, v := range extra {
 			m[k] = v
 		}
@@ -1096,6 +1136,14 @@ func Run(p Plan, res *l2.Result) {
 	}
 
 	// --- Stop -------------------------------------------------------------
+	if reached {
+		e.awaitRetries()
+	}
+	if p.Rej != nil && reached && p.Rej.AnswerMs < 0 {
+		// The peers' reactions race with Stop.
+		e.rej.open()
+		e.note("peers react to the re-announced transaction")
+	}
 	if p.StopDelayMs > 0 {
 		time.Sleep(time.Duration(p.StopDelayMs) * time.Millisecond)
 	}
@@ -1155,6 +1203,18 @@ func Run(p Plan, res *l2.Result) {
 			e.note("held lookup answered")
 		}})
 	}
+	if p.Rej != nil && reached && p.Rej.AnswerMs >= 0 {
+		rels = append(rels, release{p.Rej.AnswerMs, func() {
+			select {
+			case <-stopDone:
+				res.Count("stop_returned_while_rebroadcast_unanswered", 1)
+			default:
+				res.Count("rebroadcast_answered/released_while_stop_ran", 1)
+			}
+			e.rej.open()
+			e.note("peers react to the re-announced transaction")
+		}})
+	}
 	sort.SliceStable(rels, func(i, j int) bool { return rels[i].ms < rels[j].ms })
 	for _, rl := range rels {
 		if d := time.Until(tCall.Add(time.Duration(rl.ms) * time.Millisecond)); d > 0 {
@@ -1178,7 +1238,7 @@ func Run(p Plan, res *l2.Result) {
 				oc.stop = "hang"
 				res.Violate(evid.Sig("stop-hang", hi.Parked, "waits-for="+hi.WaitsFor),
 					fmt.Sprintf("Stop (state %s, in flight %s, peers %s) has not returned %.0f s after it was called: parked in %s while %s; %s",
-						p.State, p.InflightKinds(), p.PeerMix(), time.Since(tFrom).Seconds(), hi.Parked, hi.WaitsFor, hi.Why),
+						p.State, p.InflightKinds(), p.PeerMix(), time.Since(tFrom).Seconds(), hi.Parked, hi.WaitsFor, hi.Why+e.stopContext()),
 					witness(map[string]any{"hang": hi}))
 			} else {
 				e.note("slow stop: %s; parked %s waits for %s", hi.Why, hi.Parked, hi.WaitsFor)
@@ -1189,7 +1249,7 @@ func Run(p Plan, res *l2.Result) {
 					hi.Why = why
 					res.Violate(evid.Sig("stop-hang", hi.Parked, "waits-for="+hi.WaitsFor),
 						fmt.Sprintf("Stop (state %s, in flight %s, peers %s) has not returned %.0f s after it was called: parked in %s while %s; %s",
-							p.State, p.InflightKinds(), p.PeerMix(), time.Since(tFrom).Seconds(), hi.Parked, hi.WaitsFor, why),
+							p.State, p.InflightKinds(), p.PeerMix(), time.Since(tFrom).Seconds(), hi.Parked, hi.WaitsFor, why+e.stopContext()),
 						witness(map[string]any{"hang": hi, "waits_for_goroutines": set}))
 				case ret2:
 					res.Inconcl("Stop returned only during the second observation (Stop was parked in " + hi.Parked + ")")
@@ -1240,6 +1300,21 @@ func Run(p Plan, res *l2.Result) {
 		w.DB = nil
 	}
 	oc.reopen = e.reopen(witness)
+}
+
+// stopContext describes, for the text of a Stop violation, what the harness
+// saw of the scenario's special dimensions while Stop ran (observations only).
+func (e *env) stopContext() string {
+	out := ""
+	if e.p.Names != nil && e.rsv != nil {
+		b, d, a := e.rsv.failedLookups()
+		out += fmt.Sprintf("; permanent peers given as host names: %s; their lookups failed %d times before Stop was called and %d times since", e.p.Names.Shape(), b, d+a)
+	}
+	if e.p.Rej != nil && e.rej != nil {
+		out += fmt.Sprintf("; the peers reacted to the re-announced transaction %d ms after Stop was called (planned outcome %s; %d requests, %d rejects sent)",
+			e.p.Rej.AnswerMs, e.p.Rej.Expect(), e.rej.getdata.Load(), e.rej.rejects.Load())
+	}
+	return out
 }
 
 func orDash(s string) string {
@@ -1458,6 +1533,9 @@ func (e *env) setupPostSync() (reached, parked bool) {
 		waitRx("inv", 0, 3*time.Second)
 		hold()
 		return true, false
+
+	case StRebroadAns:
+		return e.setupRebroadAns(), false
 
 	case StRebroad:
 		// First broadcast is taken by the peers (getdata, tx accepted
